@@ -140,6 +140,8 @@ def prefix_kind(p):
         return 'canon'
     if CANON_NEG.match(p):
         return 'neg'
+    if re.fullmatch(r'[0-9]{1,3}(?:\.[0-9]{1,3}){3}', p):
+        return 'mask'                   # dotted netmask / hostmask ('/255.255.255.0'): the standard library defines the answer
     if p.isascii() and p.isdigit():
         return 'lz'                     # ASCII digits with leading zeros ('08', '064'): the standard library reads them as 8, 64
     if not p.isascii() or all(ch in PREFIX_ZONE for ch in p):
@@ -409,6 +411,9 @@ def cidr_classes(c):
         k = 'D'
     elif kind == 'spelling':
         k = 'D'
+    elif kind == 'mask':
+        v = std_net(a + '/' + p)
+        k = 'A' if v else 'R'
     elif kind == 'lz':
         k = 'A' if (len(p) <= 12 and int(p) <= mx) else ('R' if len(p) <= 12 else 'D')
     else:
